@@ -41,9 +41,11 @@ def render_section(r, ir, style, with_types=True):
             d = p.get("doc", "thing")
             if "default" in p:
                 d += ". Defaults to %s" % G.render_default(p["default"])
+            d += r.choice(["", "", "."])  # a sentence may end with its full stop at the end of the line
             out += [":param %s: %s" % (n, d)] + ([":type %s: ```%s```" % (n, p["typ"])] if with_types else []) + [""]
         if rt:
-            out += [":return: %s" % rt.get("doc", "result"), ":rtype: ```%s```" % rt["typ"]]
+            rd = rt.get("doc", "result") + (". Defaults to %s" % r.choice(["5", "-3", "0.5", "True"]) if r.random() < 0.3 else "") + r.choice(["", "", "."])
+            out += [":return: %s" % rd] + ([":rtype: ```%s```" % rt["typ"]] if with_types else [])
     elif style == "google":
         if ps:
             out.append("Args:")
@@ -74,7 +76,8 @@ def render_section(r, ir, style, with_types=True):
 def gen_doc(r):
     style = r.choice(STYLES)
     minimal = r.random() < 0.15  # the smallest legal sections: one entry, possibly one line, nothing after it (not even a newline)
-    ir = G.gen_ir(r, nparams=1 if minimal else r.randint(1, 4), none_ok=False, with_return=(r.random() < 0.6) and not minimal)
+    ret_only = r.random() < 0.1  # a section that consists of the return entry alone (a function without arguments)
+    ir = G.gen_ir(r, nparams=0 if ret_only else (1 if minimal else r.randint(1, 4)), none_ok=False, with_return=ret_only or ((r.random() < 0.6) and not minimal))
     paras = []
     for _ in range(r.randint(1, 3)):
         paras.append("\n".join(r.sample(PROSE, r.randint(1, 2))))
@@ -86,7 +89,7 @@ def gen_doc(r):
     header_lines = [l for l in header.split("\n") if l.strip()]
     footer = "\n".join(r.sample(FOOTERS, r.randint(1, 3))) if r.random() < 0.5 and not minimal else ""
     footer_lines = [l.strip() for l in footer.split("\n") if l.strip()]
-    d = header + "\n\n" + render_section(r, ir, style, with_types=not (minimal and r.random() < 0.6)) + ("\n\n" + footer if footer else "") + ("" if minimal else r.choice(["", "\n"]))
+    d = header + "\n\n" + render_section(r, ir, style, with_types=not ((minimal and r.random() < 0.6) or (style == "rest" and r.random() < (0.5 if ret_only else 0.25)))) + ("\n\n" + footer if footer else "") + ("" if minimal else r.choice(["", "\n"]))
     ind = r.choice([0, 4, 4, 8]) if minimal else r.choice([0, 4, 8])
     # "blank" separator lines that are not empty: they keep the indentation whitespace (what the project's own emitter writes at
     # indent_level >= 1) or, at indentation 0, carry a few stray blanks
@@ -96,7 +99,7 @@ def gen_doc(r):
     if ind:
         d = "\n" + "\n".join((" " * ind + l) if (l or blank_ws) else l for l in d.split("\n")) + r.choice(["", "" if minimal else "\n" + " " * ind])
     return {"doc": d, "style": style, "indent": ind, "header_lines": header_lines, "footer_lines": footer_lines, "has_footer": bool(footer),
-            "has_return": bool(ir.get("returns")), "nparams": len(ir["params"]), "names": list(ir["params"]), "kw": kw, "blank_ws": blank_ws}
+            "has_return": bool(ir.get("returns")), "nparams": len(ir["params"]), "names": list(ir["params"]), "kw": kw, "blank_ws": blank_ws, "ret_only": ret_only}
 
 
 def impl_split(case):
@@ -254,6 +257,8 @@ def run(chk: core.Check) -> int:
         base_sig = {"style": g["style"], "indented": g["indent"] > 0, "has_footer": g["has_footer"], "kw": g["kw"]}
         ws = {"blank_ws": True} if g.get("blank_ws") else {}  # root-cause marker: separator lines that are blank but not empty
         base_sig.update(ws)
+        if g.get("ret_only"):
+            base_sig["ret_only"] = True  # the section is the return entry alone
         if sp and not sp.get("timeout") and not sp.get("skipped"):
             if "raises" in sp["haf"]:
                 chk.failure({"kind": "split-raises", **base_sig, "exc": sp["haf"]["raises"]}, "parse_docstring_into_header_args_footer raises %s" % sp["haf"]["raises"],
@@ -277,13 +282,22 @@ def run(chk: core.Check) -> int:
                 miss = in_order(g["header_lines"], out)
                 if miss is not None:
                     chk.failure(({"kind": "header-line-lost", **base_sig, "target": tgt} if g["kw"] is None else
-                                 {"kind": "header-line-lost", "kw": g["kw"], "style": g["style"], "path": "fn" if tgt.startswith("fn_") else "doc", "indented": g["indent"] > 0, **ws}), "converting %s → %s loses header line %r" % (g["style"], tgt, miss),
+                                 {"kind": "header-line-lost", "kw": g["kw"], "style": g["style"], "path": "fn" if tgt.startswith("fn_") else "doc", "indented": g["indent"] > 0, **ws, **({"ret_only": True} if g.get("ret_only") else {})}), "converting %s → %s loses header line %r" % (g["style"], tgt, miss),
                                 {"fn": "convert", "gen": g, "target": tgt})
             for n, k, v in cv["fields"]:
                 for l in g["header_lines"] + g["footer_lines"]:
                     if l.strip() and l.strip() in v:
+                        extra = {}
+                        if k == "default" and g["style"] == "rest":
+                            # root-cause marker: the ReST field that announces this default is the last field of the section and its sentence has no
+                            # terminating full stop (extract_default then reads on to the next ". " or the end of the text)
+                            tag = ":return:" if n == "return_type" else ":param %s:" % n
+                            ls = [x.strip() for x in g["doc"].split("\n")]
+                            at = [i for i, x in enumerate(ls) if x.startswith(tag)]
+                            if at and not ls[at[0]].endswith(".") and not any(x.startswith((":param", ":type", ":rtype", ":return")) for x in ls[at[0] + 1:]):
+                                extra["unterminated_last_field"] = True
                         chk.failure({"kind": "prose-absorbed", "style": g["style"], "field": k, "entry": "return" if n == "return_type" else "param", "kw": g["kw"],
-                                     "prose": "footer" if l.strip() in [x.strip() for x in g["footer_lines"]] else "header", **ws},
+                                     "prose": "footer" if l.strip() in [x.strip() for x in g["footer_lines"]] else "header", **ws, **extra},
                                     "prose line %r absorbed into %s.%s = %r" % (l.strip(), n, k, v[:120]), {"fn": "convert", "gen": g})
                         break
     chk.coverage["generated_docs_by_shape"] = dist
